@@ -85,6 +85,8 @@ def classify_quote_expr(node, argname):
             kws = {k.arg: ast.unparse(k.value) for k in node.keywords}
             if set(kws) - {"ensure_ascii"}:
                 return None
+            if "ensure_ascii" in kws and kws["ensure_ascii"] not in ("True", "False"):
+                return None        # data-dependent escaping mode: outside the translator's subset
             return "json_unicode" if kws.get("ensure_ascii") == "False" else "json_ascii"
     return None
 
